@@ -96,6 +96,12 @@ TEXT = {
         'note': 'All floats are covered exhaustively in the thorough tier; doubles only on the described lattices (2^64 cannot be enumerated).',
         'technique': 'exhaustive enumeration of finite numeric lattices on the implementation (round-trip identity)',
     },
+    'C10': {
+        'level': 'Complete enumeration of described lattices on the real formatter against printf: sign x all 2047 binary exponents x 16/64 mantissa patterns x precision {0,1,2,3,6,15,17,40} / 0..40 x {Default,Fixed,SemiFixed}; k/1000 for k<=2e5 / 2e6 at precision 0..6; doubles at and next to every decimal tie 0.<1..20 digits>5 x 10^k (k=-324..307, 18 digit prefixes x 3/6 fills) printed at the tie\'s own precision in all formats; exact ties m/2^j (j<=41) and whole numbers o*5^a*2^b printed with one to three digits fewer than they have; floats with 12 low zero bits / all 2^32 floats (Default-6, Default-9, Fixed-3); all 8/16-bit integers, 32-bit integers on a 2^24 lattice / all 2^32, 64-bit boundary lattice; inf/nan/zeros; every case appended to a stream holding 0, 1 or 7 sentinel units that must survive; char, char16_t and char32_t streams. ASan variant on a sub-lattice.',
+        'design_ref': 'DESIGN.md §5 C10, §6',
+        'note': 'Covers the stated lattices, not all 2^64 doubles (all floats in the thorough tier). glibc printf %g/%f trusted as correctly rounded. The defects the property text cites were genuine and are repaired by fix 39d17c3; both tiers are clean after it.',
+        'technique': 'exhaustive enumeration of finite numeric lattices on the implementation, differential against printf',
+    },
     'C09': {
         'level': 'Complete enumeration of described numeral lattices on the real converter: all significands up to 4-5 digits x every decimal-point position x every exponent -345..+325 x sign/exponent spellings; all integers within +-2000 of 0, 2^63, 2^64, 10^k; exact decimal expansions of doubles and of midpoints between adjacent doubles (ties) for 16-64 mantissa patterns x all 2047 binary exponents, truncated to 17..400..all digits; the 1.7e308..1e310 band; every string of <=6-7 units over {0 1 9 . e E + -}. Oracle: glibc strtod, consumed length, exact integer arithmetic.',
         'design_ref': 'DESIGN.md §5 C09',
